@@ -79,9 +79,22 @@ func cacheCore(w *World, r *Report, la *LockAn, full bool) {
 			r.Undec("R1", "cache.Get/hit-count", get.Pos(), "expected one hit return, found %d", nHit)
 		}
 		// Has
+		// fresh: valueExpired(...) is false, or the same test written out (now <= expiration of the looked-up entry)
+		freshAt := func(cs []Cond) bool {
+			if condsHave(cs, false, isExp) {
+				return true
+			}
+			op, rel := FindRel(relsOfConds(cs), func(v ssa.Value) bool {
+				return strings.HasPrefix(Path(v), "(time.Time).UnixNano((clock.Clock).Now(")
+			}, func(v ssa.Value) bool { return strings.HasSuffix(Path(v), ".expirationTimeNano") })
+			if op != "<=" || rel == nil {
+				return false
+			}
+			return fromLookup(rel.L) || fromLookup(rel.R)
+		}
 		for _, alt := range ReturnAlts(has, 0) {
 			if b, isC := constBool(alt.Val); isC {
-				r.Check(!b, "R1", "cache.Has/constant-result", posOf(alt.Ret), "constant result %v (only false is allowed)", b)
+				r.Check(!b || condsHave(alt.Conds, true, isFound) && freshAt(alt.Conds), "R1", "cache.Has/constant-result", posOf(alt.Ret), "constant result %v (true only when found and not expired)", b)
 			} else {
 				r.Check(isFound(alt.Val) && condsHave(alt.Conds, false, isExp), "R1", "cache.Has/found-and-fresh", posOf(alt.Ret), "Has returns found (%s) only when not expired", Path(alt.Val))
 			}
@@ -169,7 +182,57 @@ func cacheCore(w *World, r *Report, la *LockAn, full bool) {
 				if i == nil {
 					continue
 				}
-				rel, ok := NormCond(Cond{V: i.Cond, Pol: true})
+				// the comparison may sit in a small helper called here: it is read with this call's arguments
+				cond := i.Cond
+				var site ssa.CallInstruction
+				if c, isC := cond.(*ssa.Call); isC {
+					if h := helperCall(c); h != nil {
+						if rv := helperResult(h, 0); rv != nil {
+							cond, site = rv, c
+						}
+					}
+				}
+				argOf := func(v ssa.Value) ssa.Value {
+					if p, isP := v.(*ssa.Parameter); isP && site != nil {
+						for k, q := range p.Parent().Params {
+							if q == p && k < len(site.Common().Args) {
+								return site.Common().Args[k]
+							}
+						}
+					}
+					return v
+				}
+				// a live read: the field itself is loaded while the lock is held (a local filled before the
+				// lock was taken has the same provenance but is a stale snapshot)
+				live := func(v ssa.Value) bool {
+					v = argOf(v)
+					for k := 0; k < 3; k++ {
+						u, isU := v.(*ssa.UnOp)
+						if !isU || u.Op != token.MUL {
+							return false
+						}
+						if a, isA := u.X.(*ssa.Alloc); isA {
+							sv := singleStore(a)
+							if sv == nil {
+								return false
+							}
+							v = sv
+							continue
+						}
+						if _, isFA := u.X.(*ssa.FieldAddr); isFA {
+							_, held := la.HeldAt(u)["param:cache.mutex"]
+							return held && !unlockOnPath(u, i) // read in the critical section of the test itself
+						}
+						return false
+					}
+					return false
+				}
+				isSum := func(v ssa.Value) bool {
+					b, ok := v.(*ssa.BinOp)
+					return ok && b.Op == token.ADD && Path(argOf(b.X)) == "param:cache.currentCacheSize" && live(b.X)
+				}
+				isMaxS := func(v ssa.Value) bool { return Path(argOf(v)) == "param:cache.maxCacheSize" && live(v) }
+				rel, ok := NormCond(Cond{V: cond, Pol: true})
 				if ok {
 					rel, ok = rel.Facing(isSum)
 				}
@@ -287,6 +350,7 @@ func cacheCore(w *World, r *Report, la *LockAn, full bool) {
 func runC12(w *World, r *Report) {
 	c12ReplayNotStoredAgain(w, r)
 	hrRetryAfterTypeLiteral(w, r, "R6")
+	hrEarlyResponseMessage(w, r, "R6")
 	hrCfgEarlyResponseNotFedBack(w, r, "R6")
 	hrRetryAfterHelpers(w, r, "R6")
 	la := NewLockAn(w)
@@ -302,8 +366,14 @@ func runC12(w *World, r *Report) {
 			}
 			return nil
 		}
-		rk, sk := find(reqFn, "Get"), find(respFn, "Set")
-		hk := find(respFn, "Has")
+		uh := func(v ssa.Value) ssa.Value {
+			if v == nil {
+				return nil
+			}
+			return unhelp(v)
+		}
+		rk, sk := uh(find(reqFn, "Get")), uh(find(respFn, "Set"))
+		hk := uh(find(respFn, "Has"))
 		if rk == nil || sk == nil || hk == nil {
 			r.Undec(rule, name+"/key-sites", reqFn.Pos(), "Get/Has/Set key sites not found")
 			return nil, nil
@@ -317,7 +387,7 @@ func runC12(w *World, r *Report) {
 			fn := st.Field(i).Name()
 			a, b, h := Path(litField(rk, fn)), Path(litField(sk, fn)), Path(litField(hk, fn))
 			a2 := strings.ReplaceAll(a, reqVar, respVar)
-			r.Check(a2 == b && b == h && a != "nil", rule, name+"/key-field/"+fn, posOf(sk.(ssa.Instruction)), "request side %s ; response side %s ; Has %s", trunc(a, 120), trunc(b, 120), trunc(h, 60))
+			r.Check(a2 == b && b == h && a != "nil", rule, name+"/key-field/"+fn, valuePos(sk), "request side %s ; response side %s ; Has %s", trunc(a, 120), trunc(b, 120), trunc(h, 60))
 		}
 		return rk, sk
 	}
@@ -762,4 +832,12 @@ func c12ReplayNotStoredAgain(w *World, r *Report) {
 		return
 	}
 	r.Fail("R7", key, posOf(sets[0]), "CachingPlugin.OnResponse (store guarded only by size and absence) is reached from obtainModifiedEarlyResponse for every replayed response: an entry that expires between the replay's two clock readings is stored again with a fresh time-to-live")
+}
+
+// valuePos: a position for a value that may be a parameter.
+func valuePos(v ssa.Value) token.Pos {
+	if in, ok := v.(ssa.Instruction); ok {
+		return posOf(in)
+	}
+	return v.Pos()
 }
